@@ -77,6 +77,7 @@ fn variants(rng: &mut Rng, k: u32) -> Vec<(&'static str, String)> {
         ("cd-pwd", "cd ./d/.; pwd >p.txt; read p <p.txt; echo \"${p##*/}\"; cd ..; cd d/sub; cd ../../d; echo \"${PWD##*/} ?=$?\"; cd ..".to_string()),
         ("cd-pwd", "cd d; cd ../e1; echo \"?=$?\"; cd ../nodir/..; echo \"?=$? ${PWD##*/}\"; cd ..".to_string()),
         ("source", format!("echo 'echo sourced{k}; return 5; echo NEVER' >s{k}.sh; . ./s{k}.sh; echo \"?=$?\"; command . ./missing.sh; echo \"?=$?\"")),
+("emfile-no-side-effect", format!("( ulimit -n 3; echo x >|nf{k}; echo y >|e1; echo z >>e2.txt ); echo \"?=$?\"; echo nf*; cat e1 e2.txt")),
         ("ulimit-nofile", "( ulimit -n 6; ulimit -n; exec 3>|f1 4>|f2 5>|f3; echo \"?=$?\"; exec 6>|f1; echo \"?=$?\" ); echo \"?=$?\"".to_string()),
         ("read-opts", "read -r a b <<'EOF'\n  x\\ty   z \\\nEOF\necho \"[$a][$b] ?=$?\"; read a b <<'EOF'\none\\\ntwo three\nEOF\necho \"[$a][$b] ?=$?\"".to_string()),
         ("type", "type cd; type rc; command -v echo; type nosuchcmd; echo \"?=$?\"".to_string()),
